@@ -3,13 +3,18 @@
 #include "core/mod.c"            /* the real translation unit, unmodified */
 #include "abs.contracts.h"
 #include "cb.contracts.h"
+#ifdef V_RESET_UNIT
+#include "fd.contracts.h"
+#else
 #include "mod.contracts.h"
+#endif
 
 #define H_INPUTS(X) V_MOD_INPUTS(X) X(uint8_t, flag) X(uint8_t, null_mod) X(int32_t, ips_ret) X(int32_t, ms_ret) X(uint64_t, others) \
                     X(uint8_t, has_on_start) X(uint8_t, has_on_stop) X(uint8_t, has_on_eval) X(uint8_t, hook) X(uint8_t, from_user) X(uint8_t, null_ref) X(int32_t, maprm_ret) X(int32_t, ctxdereg_ret) X(uint64_t, nmods)
 V_DEFINE_INPUTS(H_INPUTS)
 #include "vbuild.h"
 
+#ifndef V_RESET_UNIT
 static void build_mod(void) {
     build();
     V_ASSUME(vin_others < ((uint64_t)1 << 59) && vin_ips_ret <= 0 && vin_ms_ret <= 0 && vin_ips_ret > -200 && vin_ms_ret > -200);
@@ -80,3 +85,19 @@ SETTER_HARNESS(m_start, m_mod_start)
 SETTER_HARNESS(m_pause, m_mod_pause)
 SETTER_HARNESS(m_resume, m_mod_resume)
 SETTER_HARNESS(m_stop, m_mod_stop)
+#endif
+
+#ifdef V_RESET_UNIT
+void h_reset_module(void) {
+    build();
+    V_ASSUME(vin_nmods < ((uint64_t)1 << 59));
+    g_subs = malloc(sizeof *g_subs); __CPROVER_assume(g_subs != NULL); g_subs->len = vin_nmods; g_subs->internal = 0;
+    g_mod->subscriptions = vin_hook ? g_subs : NULL;
+    g_mod->pubsub_fd[0] = vin_from_user ? 40 : -1; g_mod->pubsub_fd[1] = vin_from_user ? 41 : -1; g_open_fd = vin_from_user ? 41 : -1;
+    g_mod->batch.timer.ns = vin_others; g_mod->tb.timer.ns = vin_others;
+    g_bound->len = vin_null_ref;
+    reset_module(g_mod);
+    V_COVER("reset-open-pipe", vin_from_user); V_COVER("reset-never-started", !vin_from_user); V_COVER("reset-no-subscriptions", !vin_hook);
+    V_CANARY();
+}
+#endif
